@@ -75,16 +75,32 @@ def main():
     thorough = run.tier == "thorough"
     vh = vlib.build_vh("csvimport")
     with vlib.Scratch("verif-c26-") as sc:
-        # ---- M: the design
-        mcs = [("CsvImportMC(read<=3, 2 counter tuples)", "CONSTANT MaxRead = 3", False)]
+        # ---- M (the design) and the behaviour generators: independent TLC runs, started together
+        mcs = [("CsvImportMC(read<=3, 2 counter tuples)", "MaxRead = 3", False)]
         if thorough:
-            mcs.append(("CsvImportMC(read<=5, 1 counter tuple)", "CONSTANT MaxRead = 5", True))
-        for label, consts, one_val in mcs:
+            mcs.append(("CsvImportMC(read<=5, 1 counter tuple)", "MaxRead = 5", True))
+        jobs = []
+        for label, mr, one_val in mcs:
             cfg = open(os.path.join(vlib.SPEC, "csvimport", "CsvImportMC.cfg")).read()
             if one_val:
                 cfg = cfg.replace("Candidates <- MCCandidates", "Candidates <- MCCandidates1")
-            cfg = cfg.replace("MaxRead = 4", consts.split("CONSTANT ")[1])
-            r = vlib.tlc("csvimport", "CsvImportMC", {"cfg_text": cfg}, coverage=True, scratch=sc, timeout=1500)
+            cfg = cfg.replace("MaxRead = 4", mr)
+            jobs.append(lambda cfg=cfg: vlib.tlc("csvimport", "CsvImportMC", {"cfg_text": cfg}, coverage=True, timeout=1500, workers=6))
+        gcfg = open(os.path.join(vlib.SPEC, "csvimport", "CsvImportGen.cfg")).read()
+        gcfg = gcfg.replace("Depth = 3", "Depth = %d" % (4 if thorough else 3))
+        if not thorough:
+            gcfg = gcfg.replace("Schemas <- GenSchemas4", "Schemas <- GenSchemas2")
+        jobs.append(lambda: vlib.tlc("csvimport", "CsvImportGen", {"cfg_text": gcfg}, timeout=1200, workers=4))
+        kcfg = open(os.path.join(vlib.SPEC, "csvimport", "CsvImportGenKinds.cfg")).read()
+        if thorough:
+            kcfg = kcfg.replace("Depth = 2", "Depth = 3").replace("Schemas <- GenSchemas8", "Schemas <- GenSchemas4b")
+        jobs.append(lambda: vlib.tlc("csvimport", "CsvImportGen", {"cfg_text": kcfg}, timeout=1200, workers=4))
+        nsim = 1500 if thorough else 150
+        jobs.append(lambda: vlib.tlc("csvimport", "CsvImportGen", "CsvImportGenSim.cfg", workers=1, simulate=nsim, depth=30,
+                                     seed=run.seed, timeout=1200))
+        with ThreadPoolExecutor(len(jobs)) as ex:
+            res = [f.result() for f in [ex.submit(j) for j in jobs]]
+        for (label, _, _), r in zip(mcs, res):
             vlib.expect_tlc_ok(r, label)
             if r.violation:
                 raise vlib.MachineryError("CsvImport design violates %s (spec error, not a code verdict)" % r.violation)
@@ -94,26 +110,15 @@ def main():
 
         # ---- F: generated behaviours
         gens = []  # (label, behaviours, prefixes)
-        gcfg = open(os.path.join(vlib.SPEC, "csvimport", "CsvImportGen.cfg")).read()
-        gcfg = gcfg.replace("Depth = 3", "Depth = %d" % (4 if thorough else 3))
-        if not thorough:
-            gcfg = gcfg.replace("Schemas <- GenSchemas4", "Schemas <- GenSchemas2")
-        g = vlib.tlc("csvimport", "CsvImportGen", {"cfg_text": gcfg}, scratch=sc, timeout=1200)
+        g, g2, g3 = res[len(mcs):]
         vlib.expect_tlc_ok(g, "CsvImportGen")
         vlib.require(len(g.traces) > 3000, "generator produced too few behaviours (%d)" % len(g.traces))
         run.add_tlc(g, "CsvImportGen(depth %d, %d schemas)" % ((4, 4) if thorough else (3, 2)))
         gens.append(("classes", g.traces, False))
-        kcfg = open(os.path.join(vlib.SPEC, "csvimport", "CsvImportGenKinds.cfg")).read()
-        if thorough:
-            kcfg = kcfg.replace("Depth = 2", "Depth = 3").replace("Schemas <- GenSchemas8", "Schemas <- GenSchemas4b")
-        g2 = vlib.tlc("csvimport", "CsvImportGen", {"cfg_text": kcfg}, scratch=sc, timeout=1200)
         vlib.expect_tlc_ok(g2, "CsvImportGenKinds")
         vlib.require(len(g2.traces) > 3000, "kinds generator produced too few behaviours (%d)" % len(g2.traces))
         run.add_tlc(g2, "CsvImportGenKinds(all unusable-row kinds; %s)" % ("depth 3, the 4 other schemas" if thorough else "depth 2, 8 schemas"))
         gens.append(("kinds", g2.traces, False))
-        nsim = 1500 if thorough else 150
-        g3 = vlib.tlc("csvimport", "CsvImportGen", "CsvImportGenSim.cfg", workers=1, simulate=nsim, depth=30, seed=run.seed,
-                      scratch=sc, timeout=1200)
         vlib.expect_tlc_ok(g3, "CsvImportGenSim")
         vlib.require(len(g3.traces) >= nsim // 2, "simulation produced too few behaviours (%d)" % len(g3.traces))
         gens.append(("sim", g3.traces, True))
@@ -144,6 +149,10 @@ def main():
                 run.drift.append({"desc": d["desc"], "msg": d["msg"]})
             for f in fails:
                 allfails.append((tag, prefixes, f))
+        lost = sum(t.get("rejected_with_imported_rows_not_stored", 0) for t in run.cov.get("replay", {}).values())
+        if lost:
+            run.note("not judged: in %d rejected imports (time going backwards) the rows of the current timestamp had been counted "
+                     "as imported but were never written to the destination (the statement is silent about rejected input)" % lost)
         run.cov["row_kinds_exercised"] = sorted(kinds_seen)
         run.cov["schemas_exercised"] = sorted(schemas_seen)
         for must in ("ok", "regress", "short", "zerotime", "badsip", "mixedfam", "slashiface"):
@@ -161,11 +170,12 @@ def main():
         b3 = json.loads(json.dumps(first_ok)); b3["steps"][-1]["exp"]["store"] = b3["steps"][-1]["exp"]["store"][1:]
         ctl.append(("row dropped", b3))
         b4 = json.loads(json.dumps(first_ok)); b4["steps"][-1]["exp"]["err"] = True; ctl.append(("expects rejection", b4))
-        good, _, _ = _replay(vh, [first_ok], run.seed, False, sc, "ctl0")
-        vlib.require(not good, "negative control base case does not agree")
+        fails, _, _ = _replay(vh, [first_ok] + [b for _, b in ctl], run.seed, False, sc, "ctl")
+        rejected = {json.dumps(f["behaviour"]["steps"], sort_keys=True) for f in fails}
+        vlib.require(json.dumps(first_ok["steps"], sort_keys=True) not in rejected, "negative control base case does not agree")
         for name, b in ctl:
-            fails, _, _ = _replay(vh, [b], run.seed, False, sc, "ctl")
-            vlib.require(len(fails) == 1, "negative control: corrupted expectation (%s) was accepted" % name)
+            vlib.require(json.dumps(b["steps"], sort_keys=True) in rejected,
+                         "negative control: corrupted expectation (%s) was accepted" % name)
         run.cov["negative_control"] = "4 corrupted expectations (counter+1, imported+1, row dropped, rejection expected) rejected"
     run.cov["rule"] = ("distinct = distinct (schema variant, row-class sequence) pairs executed on the real importer; "
                        "evaluations = Import calls each followed by a full read-back of the destination")
